@@ -25,12 +25,16 @@ pub enum Leaf {
     Continue,
     /// call a function that itself returns through a try/finally
     CallRtt,
+    /// call a function whose finally block returns while its own return is waiting
+    CallRif,
+    /// call a function whose finally block returns while an exception is waiting
+    CallXif,
 }
 
-pub const LEAVES: [Leaf; 18] = [
+pub const LEAVES: [Leaf; 20] = [
     Leaf::Fall, Leaf::ThrowStr, Leaf::ThrowNum, Leaf::ThrowError, Leaf::ThrowUser, Leaf::TypeErr, Leaf::IndexErr,
     Leaf::NameErr, Leaf::AttrErr, Leaf::ValueErr, Leaf::RuntimeErr, Leaf::Deep(1), Leaf::Deep(2), Leaf::Deep(3),
-    Leaf::Return, Leaf::Break, Leaf::Continue, Leaf::CallRtt,
+    Leaf::Return, Leaf::Break, Leaf::Continue, Leaf::CallRtt, Leaf::CallRif, Leaf::CallXif,
 ];
 
 #[derive(Clone, Copy, Debug, PartialEq)]
@@ -97,6 +101,8 @@ pub fn leaf_stmts(l: Leaf) -> Vec<Stmt> {
         Leaf::Break => vec![st(StmtKind::Break)],
         Leaf::Continue => vec![st(StmtKind::Continue)],
         Leaf::CallRtt => vec![print_stmt(call(var("rtt"), vec![]))],
+        Leaf::CallRif => vec![print_stmt(call(var("rif"), vec![]))],
+        Leaf::CallXif => vec![print_stmt(call(var("xif"), vec![]))],
     }
 }
 
@@ -107,6 +113,8 @@ pub fn prelude() -> Vec<Stmt> {
         fn_stmt(func("thr2", &[], vec![var_stmt("l2", s("l2")), expr_stmt(call(var("thr1"), vec![])), print_stmt(var("l2"))])),
         fn_stmt(func("thr3", &[], vec![st(StmtKind::Try(vec![expr_stmt(call(var("thr2"), vec![]))], None, Some(vec![p("thr3 finally")])))])),
         fn_stmt(func("rtt", &[], vec![st(StmtKind::Try(vec![st(StmtKind::Return(Some(s("rtt value"))))], None, Some(vec![p("rtt finally")])))])),
+        fn_stmt(func("rif", &[], vec![st(StmtKind::Try(vec![st(StmtKind::Return(Some(s("rif first value"))))], None, Some(vec![p("rif finally"), st(StmtKind::Return(Some(s("rif second value"))))])))])),
+        fn_stmt(func("xif", &[], vec![st(StmtKind::Try(vec![st(StmtKind::Throw(s("xif exception")))], None, Some(vec![p("xif finally"), st(StmtKind::Return(Some(s("xif value"))))])))])),
     ]
 }
 
